@@ -11,8 +11,7 @@ ASSUMPTIONS = [
     "entry i of the history of a long run is compared with the objective (recomputed from coefficients alone) of the point "
     "returned by the run with outer budget i+1 — the same trajectory by determinism (validated by history prefix equality)",
     "a run 'stopped on its tolerance' when it returned fewer history entries than its outer budget; its stopping value is then "
-    "compared with the reference violation of the returned point (same strategy), the intercept part being measured in units "
-    "of its 1/L step (|dF/db| / L_b, L_b = 1/4 for logistic losses in AndersonCD / GroupBCD, 1 otherwise); LBFGS (scipy's "
+    "compared with the reference violation of the returned point (same strategy, max with |dF/d intercept|); LBFGS (scipy's "
     "projected gradient, abnormal terminations) and PDCD_WS (primal-dual residuals in its own units) are exempt from this clause",
     "warm starts of exp-based losses are kept inside |X w0 + b| <= 30",
 ]
@@ -120,9 +119,7 @@ def check_column(comp, nodes, ks, e):
             out.append(("last_entry_not_objective_of_returned_point", (k, e), float(hist[-1]), f))
         if n < k and k >= 1 and np.isfinite(sc) and s not in ("LBFGS", "PDCD_WS"):
             viol, parts = C.certificate(c, w)
-            # CD solvers measure the intercept in units of its 1/L step: |dF/db| / L_b, L_b = 1/4 for the logistic losses
-            Lb = 0.25 if (comp["datafit"] or {}).get("name") in ("Logistic", "LogisticGroup") and s in ("AndersonCD", "GroupBCD") else 1.0
-            expected = max(parts["penalty"], parts["intercept"] / Lb)
+            expected = viol
             if not (abs(sc - expected) <= 1e-9 * max(1.0, abs(expected)) + 1e-12):
                 out.append(("stop_value_not_violation_of_returned_point", (k, e), sc, expected))
     # entry i of the longest history vs the point returned with budget i+1
